@@ -432,3 +432,28 @@ def check_arena_insert(ck, P, rid):
         ck.violated(rid, inst, add.where, "with %d arena(s), a new arena whose address is number %d in ascending order is inserted at index %s: the table is no longer sorted and the binary search of rs_free / rs_realloc misses pointers or picks the wrong arena" % bad, cfg)
     else:
         ck.holds(rid, inst, add.where, "for 0..5 arenas and every rank of the new address the insertion index equals the number of lower addresses", cfg)
+
+
+def check_result_field_width(ck, P, rid):
+    """buddy_realloc_res.original carries the size of the old block, up to 1 << B_TOTAL_EXP (a whole arena): the field must be wide enough,
+    or the size of the largest class truncates (to 0) and rs_realloc copies nothing."""
+    cfg = P.config
+    inst = "old-size-width@buddy_realloc_res"
+    try:
+        fld = P.field("buddy_realloc_res", "original")
+    except Exception:
+        fld = None
+    st = P.record("buddy_state") if hasattr(P, "record") else None
+    total = None
+    if st:
+        for x in st["fields"]:
+            if x["name"] == "base_mem" and x.get("size"):
+                total = x["size"]          # bytes of one arena = 1 << B_TOTAL_EXP
+    if not fld or not fld.get("size") or not total:
+        ck.inconclusive(rid, inst, "src/mm/buddy/buddy.h", "field buddy_realloc_res.original / the arena size were not found", cfg)
+        return
+    bits = fld["size"] * 8
+    if total > (1 << bits) - 1:
+        ck.violated(rid, inst, "src/mm/buddy/buddy.h", "buddy_realloc_res.original is %d bits wide but must carry block sizes up to %d (a whole arena): the size of the largest class becomes %d, and a realloc that moves such a block copies that many bytes instead of the common prefix" % (bits, total, total & ((1 << bits) - 1)), cfg)
+    else:
+        ck.holds(rid, inst, "src/mm/buddy/buddy.h", "%d bits hold every block size up to the arena size %d" % (bits, total), cfg)
